@@ -953,10 +953,49 @@ add("subsetIntIndex", "Table", ["C12"], _CORE, "func", [("spec", I), ("n", I)], 
 
 
 
+def _strip_brackets(text):
+    """text with everything inside (), [], {} removed (to look for a top-level `=`)"""
+    out, depth = [], 0
+    for ch in text:
+        if ch in "([{":
+            depth += 1
+        elif ch in ")]}":
+            depth = max(0, depth - 1)
+        elif depth == 0:
+            out.append(ch)
+    return "".join(out)
+
+
 def _has(src, *needles):
-    flat = src.replace("\n", "").replace(" ", "")
+    """Every needle occurs in the (unparsed) source, ignoring whitespace. A needle that reads like a
+    complete statement must also END where a source line ends (otherwise `x = f(a)` would still be
+    "found" in `x = f(a).astype(np.uint8)` or `x = f(a) + 1`); needles that end in an opening token
+    (`,` `(` `[` `.` `=`) or are written as fragments (leading `.`) are substring matches."""
+    lines = [ln.strip().replace(" ", "") for ln in src.splitlines()]
+    flat = "".join(lines)
+    ends, k = set(), 0
+    for ln in lines:
+        k += len(ln)
+        ends.add(k)
     for n in needles:
-        if n.replace(" ", "") not in flat:
+        nn = n.replace(" ", "").replace("\n", "")
+        if not nn:
+            continue
+        # statement-like needles (assignment, or starting with a statement keyword) are strict; "~" forces
+        # a fragment (sub-expression) match
+        forced = n.lstrip().startswith("~")
+        if forced:
+            nn = nn[1:]
+        stmt_like = bool(re.match(r"^(return|if|elif|else|for|while|raise|with|assert|del|yield)\b", n.lstrip())) \
+            or bool(re.search(r"(?<![=!<>+\-*/%&|^:])=(?!=)", _strip_brackets(n)))
+        fragment = forced or not stmt_like or nn[-1] in ",([.=" or nn[0] == "."
+        pos, ok = flat.find(nn), False
+        while pos >= 0:
+            if fragment or (pos + len(nn)) in ends:
+                ok = True
+                break
+            pos = flat.find(nn, pos + 1)
+        if not ok:
             raise SelectorMiss("missing: " + n)
     return True
 
@@ -1005,8 +1044,8 @@ def _df_ops(t):
     for name, op in want.items():
         src = ast.unparse(func(cls, name))
         _has(src, "df = self.to_dataframe()", "from_dataframe(", op)
-    _has(ast.unparse(func(cls, "group_by")), "df = self.to_dataframe()", "maintain_order=True")
-    _has(ast.unparse(func(cls, "cutby")), "self.to_dataframe().with_columns(cat)", "maintain_order=True")
+    _has(ast.unparse(func(cls, "group_by")), "df = self.to_dataframe()", "~maintain_order=True")
+    _has(ast.unparse(func(cls, "cutby")), "self.to_dataframe().with_columns(cat)", "~maintain_order=True")
     return True
 
 
@@ -1214,11 +1253,11 @@ def _batch_scatter(t):
 
 add("batchTasksScatteredToMoleculeOrder", "Loader", ["C03", "C10"], _BATCH, "const", [], pattern(_batch_scatter))
 add("groupByKeepsOrder", "Loader", ["C03", "C12"], _CORE, "const", [],
-    pattern(lambda t: _has(ast.unparse(func(t, "Molecules.group_by")), "maintain_order=True")))
+    pattern(lambda t: _has(ast.unparse(func(t, "Molecules.group_by")), "~maintain_order=True")))
 add("mappingTasksZipRows", "Loader", ["C03"], _LBASE, "const", [],
     pattern(lambda t: (_has(ast.unparse(func(t, "LoaderBase.iter_mapping_tasks")),
                             "dask_array = self.construct_loading_tasks(output_shape=output_shape)",
-                            "for ar, kw in zip(dask_array, _misc.dict_iterrows(var_kwarg))",
+                            "~for ar, kw in zip(dask_array, _misc.dict_iterrows(var_kwarg))",
                             "(delayed_f(ar, *const_args, **const_kwargs) for ar in dask_array)")
                        and _has(ast.unparse(func(t, "LoaderBase._post_align")),
                                 "for i, result in enumerate(results):", "local_shifts[i] = loc_shift * self.scale")
@@ -1247,7 +1286,7 @@ add("groupDerivedAreLists", "Loader", ["C03", "C09"], _LGROUP, "const", [],
 add("groupIteratorPartitions", "Loader", ["C03"], _LGROUP, "const", [],
     pattern(lambda t: _has(ast.unparse(func(t, "LoaderGroupByIterator.__iter__")),
                            "for key, mole in loader.molecules.with_features(index).groupby(self._by):",
-                           "molecules=mole.drop_features(index_col_name)")))
+                           "~molecules=mole.drop_features(index_col_name)")))
 
 
 # ==========================================================================================
@@ -1660,7 +1699,7 @@ def _compose(t):
     src = ast.unparse(fn)
     _has(src, "if isinstance(other, ImageProvider): fn = lambda scale: self(other(scale), scale)",
          "elif isinstance(other, ImageConverter): fn = lambda x, scale: self(other(x, scale), scale)",
-         "else: raise TypeError", "return other.__class__(fn)")
+         "else: raise TypeError(", "return other.__class__(fn).with_name(")
     cls = func(t, "ImageConverter")
     if not any(isinstance(n, ast.Assign) and ast.unparse(n) == "__matmul__ = compose" for n in cls.body):
         raise SelectorMiss("__matmul__ is not compose")
@@ -1677,9 +1716,9 @@ add("pipeCompose", "Pipe", ["C19"], _CLS, "const", [], pattern(_compose))
 
 def _curry(t):
     _has(ast.unparse(func(t, "provider_function")), "_fn = _assert_1_arg(fn)",
-         "return ImageProvider(lambda scale: _fn(scale, *args, **kwargs))")
+         "return ImageProvider(lambda scale: _fn(scale, *args, **kwargs)).with_name(")
     _has(ast.unparse(func(t, "converter_function")), "_fn = _assert_2_args(fn)",
-         "return ImageConverter(lambda img, scale: _fn(img, scale, *args, **kwargs))")
+         "return ImageConverter(lambda img, scale: _fn(img, scale, *args, **kwargs)).with_name(")
     _has(ast.unparse(func(t, "_assert_1_arg")), "if nargs == 0: out = lambda x: func()", "else: return func")
     _has(ast.unparse(func(t, "_assert_2_args")), "if nargs == 0: out = lambda x0, x1: func()",
          "elif nargs == 1: out = lambda x0, x1: func(x0)", "else: return func")
@@ -1741,7 +1780,7 @@ add("smoothExponent", "Pipe", ["C19"], _MSK, "expr", [("dist", R), ("sigma", R),
     lambda t: call(func(t, "gaussian_smooth"), "np.exp").args[0])
 add("pipeSmoothStructure", "Pipe", ["C19"], _MSK, "const", [],
     pattern(lambda t: _has(ast.unparse(func(t, "gaussian_smooth")), "if sigma == 0: return img.astype(np.float32)",
-                           "if sigma < 0: raise ValueError", "if img.all() or not img.any(): return img.astype(np.float32)",
+                           "if sigma < 0: raise ValueError(", "if img.all() or not img.any(): return img.astype(np.float32)",
                            "img = ~img", "dist: NDArray[np.float32] = ndi.distance_transform_edt(img)",
                            "blurred_mask = np.exp(-dist ** 2 / 2 / (sigma / scale) ** 2, dtype=np.float32)",
                            "return blurred_mask")))
@@ -1784,8 +1823,8 @@ add("fromFileRatio", "Pipe", ["C19"], _IMR, "expr", [("original_scale", R), ("sc
 add("fromFileKeeps", "Pipe", ["C19"], _IMR, "expr", [("ratio", R), ("tol", R)],
     lambda t: first(func(t, "from_file"), ast.If, lambda n: "tol" in ast.unparse(n.test)).test)
 add("pipeRescaleStructure", "Pipe", ["C19"], _IMR, "const", [],
-    pattern(lambda t: _has(ast.unparse(func(t, "from_array")), "if original_scale is not None and original_scale <= 0: raise ValueError",
-                           "if img.ndim != 3: raise ValueError", "if abs(ratio - 1) < tol: return img",
+    pattern(lambda t: _has(ast.unparse(func(t, "from_array")), "if original_scale is not None and original_scale <= 0: raise ValueError(",
+                           "if img.ndim != 3: raise ValueError(", "if abs(ratio - 1) < tol: return img",
                            "out = zoom(img, ratio, order=3, prefilter=True, mode='reflect')")
             and _has(ast.unparse(func(t, "from_file")), "if abs(ratio - 1) < tol: return img",
                      "return zoom(img, ratio, order=3, prefilter=True, mode='reflect')")
